@@ -16,6 +16,7 @@ package circuitbreaker
 import (
 	"context"
 	"errors"
+	"sync"
 	"sync/atomic"
 	"time"
 
@@ -35,6 +36,7 @@ type CircuitBreaker struct {
 	threshold    uint64
 	recoverTime  time.Duration
 	mockService  MockService
+	lock         sync.Mutex
 }
 
 // Option for CircuitBreaker.
@@ -90,20 +92,28 @@ func (cb *CircuitBreaker) MockService() MockService {
 
 // IOHandler for CircuitBreaker.
 func (cb *CircuitBreaker) IOHandler(ctx context.Context, request []byte, next core.NextIOHandler) (response []byte, err error) {
+	// the decision to forward (count, time of the last failure, half-open reset)
+	// and the accounting of a failure each touch two words: keep them atomic with
+	// respect to each other
+	cb.lock.Lock()
 	if atomic.LoadUint64(&cb.failCount) > cb.threshold {
 		interval := time.Duration(time.Now().UnixNano() - atomic.LoadInt64(&cb.lastFailTime))
 		if interval < cb.recoverTime {
+			cb.lock.Unlock()
 			return nil, ErrBreaker
 		}
 		atomic.StoreUint64(&cb.failCount, cb.threshold>>1)
 	}
+	cb.lock.Unlock()
 	defer func() {
 		if e := recover(); e != nil {
 			err = core.NewPanicError(e)
 		}
 		if err != nil {
+			cb.lock.Lock()
 			atomic.AddUint64(&cb.failCount, 1)
 			atomic.StoreInt64(&cb.lastFailTime, time.Now().UnixNano())
+			cb.lock.Unlock()
 		}
 	}()
 	response, err = next(ctx, request)
